@@ -20,6 +20,11 @@ import (
 	"github.com/anthdm/hollywood/actor"
 	"github.com/anthdm/hollywood/remote"
 	"google.golang.org/protobuf/proto"
+	"google.golang.org/protobuf/reflect/protodesc"
+	"google.golang.org/protobuf/reflect/protoreflect"
+	"google.golang.org/protobuf/reflect/protoregistry"
+	"google.golang.org/protobuf/types/descriptorpb"
+	"google.golang.org/protobuf/types/dynamicpb"
 )
 
 type PID struct {
@@ -121,8 +126,40 @@ func payload(typ, data string) any {
 		return &actor.Ping{From: &actor.PID{Address: data, ID: "x"}}
 	case "actor.PID": // the one type the library itself registers with remote.RegisterType
 		return &actor.PID{Address: data, ID: "payload"}
+	case "verifdyn.Label", "verifdyn.Reading":
+		// two message types defined at run time: different protobuf types behind one Go type (*dynamicpb.Message)
+		m := dynamicpb.NewMessage(dynTypes[typ])
+		m.Set(dynTypes[typ].Fields().ByNumber(1), protoreflect.ValueOfString(data))
+		return m
 	}
 	panic("unknown model type " + typ)
+}
+
+var dynTypes = map[string]protoreflect.MessageDescriptor{}
+
+func init() {
+	str := descriptorpb.FieldDescriptorProto_TYPE_STRING
+	opt := descriptorpb.FieldDescriptorProto_LABEL_OPTIONAL
+	msg := func(name, field string) *descriptorpb.DescriptorProto {
+		return &descriptorpb.DescriptorProto{Name: proto.String(name), Field: []*descriptorpb.FieldDescriptorProto{
+			{Name: proto.String(field), Number: proto.Int32(1), Type: &str, Label: &opt, JsonName: proto.String(field)}}}
+	}
+	fdp := &descriptorpb.FileDescriptorProto{Name: proto.String("verifdyn.proto"), Package: proto.String("verifdyn"), Syntax: proto.String("proto3"),
+		MessageType: []*descriptorpb.DescriptorProto{msg("Label", "text"), msg("Reading", "value")}}
+	fd, err := protodesc.NewFile(fdp, protoregistry.GlobalFiles)
+	if err != nil {
+		panic(err)
+	}
+	if err := protoregistry.GlobalFiles.RegisterFile(fd); err != nil {
+		panic(err)
+	}
+	for i := 0; i < fd.Messages().Len(); i++ {
+		md := fd.Messages().Get(i)
+		dynTypes[string(md.FullName())] = md
+		if err := protoregistry.GlobalTypes.RegisterMessage(dynamicpb.NewMessageType(md)); err != nil {
+			panic(err)
+		}
+	}
 }
 
 func encodeData(typ, data string) []byte {
@@ -130,7 +167,7 @@ func encodeData(typ, data string) []byte {
 		return []byte{0xff, 0xff, 0xff}
 	}
 	t := typ
-	if t != "remote.TestMessage" && t != "actor.Ping" && t != "actor.PID" {
+	if _, dyn := dynTypes[t]; !dyn && t != "remote.TestMessage" && t != "actor.Ping" && t != "actor.PID" {
 		t = "remote.TestMessage"
 	}
 	b, err := proto.Marshal(payload(t, data).(proto.Message))
@@ -157,6 +194,13 @@ func describe(m any) (string, string) {
 			return "actor.PID", "empty"
 		}
 		return "actor.PID", short(x.Address)
+	case *dynamicpb.Message:
+		name := string(x.Descriptor().FullName())
+		v := x.Get(x.Descriptor().Fields().ByNumber(1)).String()
+		if v == "" {
+			return name, "empty"
+		}
+		return name, short(v)
 	}
 	return reflect.TypeOf(m).String(), "?"
 }
